@@ -97,7 +97,7 @@ def order_snapshot(o, name):
     s = o.simulated
     return {"o": name, "strategy": getattr(o.trade.strategy, "idx", 0), "side": o.side, "otype": o.order_type.ORDER_TYPE.name, "sel": o.selection_id,
             "tif": getattr(o.order_type, "time_in_force", None), "mf": getattr(o.order_type, "min_fill_size", None),
-            "status": o.status.value if o.status else None, "complete": o.complete,
+            "status": o.status.value if o.status else None, "complete": o.complete, "runner_status": o.runner_status,
             "log": [x.value for x in o.status_log],
             "size": (o.order_type.size if hasattr(o.order_type, "size") else None),
             "price": getattr(o.order_type, "price", None), "liab": getattr(o.order_type, "liability", None),
@@ -305,7 +305,9 @@ def run_scenario(sc, observe="all"):
         out = {"calls": rec.calls, "obs": rec.obs, "packages": rec.packages, "events": rec.events, "requests": rec.requests,
                "final": final, "error": err, "clock_restored": datetime.datetime is real_dt,
                "tx": [[c.current_transaction_count_total, c.transaction_count_total] for c in cls],
-               "markets": {mid: {"closed": m.closed} for mid, m in fw.markets._markets.items()}}
+               "markets": {mid: {"closed": m.closed} for mid, m in fw.markets._markets.items()},
+               "invested": [sorted({k[0] for k in st._invested}) for st in strategies],
+               "mw_markets": sorted(fw._market_middleware[0].markets.keys()) if fw._market_middleware else []}
         if err:
             out["tb"] = getattr(rec, "tb", "")
         return out
